@@ -237,6 +237,11 @@ func (p *printer) simpleCmd(x *ast.SimpleCmd, redirs []*ast.Redir) (err error) {
 		}
 		order[2] = "args"
 	}
+	if len(x.Assigns) == 0 && len(redirs) != 0 && len(x.Args) != 0 && reserved(x.Args[0]) {
+		// the spelling of a reserved word is a command name only
+		// behind a redirection
+		order = [3]string{"redir", "args"}
+	}
 	var sp bool
 	for _, s := range order {
 		switch s {
@@ -268,6 +273,19 @@ func (p *printer) simpleCmd(x *ast.SimpleCmd, redirs []*ast.Redir) (err error) {
 		}
 	}
 	return
+}
+
+// reserved reports whether w spells a reserved word.
+func reserved(w ast.Word) bool {
+	if len(w) == 1 {
+		if w, ok := w[0].(*ast.Lit); ok {
+			switch w.Value {
+			case "!", "{", "}", "case", "do", "done", "elif", "else", "esac", "fi", "for", "if", "in", "then", "until", "while":
+				return true
+			}
+		}
+	}
+	return false
 }
 
 func (p *printer) redir(r *ast.Redir) {
